@@ -195,6 +195,12 @@ orc_parse_code (const char *code, OrcProgram ***programs, int *n_programs,
       continue;
     }
 
+    if (line->n_tokens > ORC_LINE_MAX_TOKENS) {
+      orc_parse_add_error (parser, "too many tokens on one line (at most %d)",
+          ORC_LINE_MAX_TOKENS);
+      continue;
+    }
+
     if (orc_line_is_directive (line)) {
       orc_parse_handle_directive (parser, line);
     } else {
@@ -312,6 +318,12 @@ orc_line_parse_tokens (OrcLine *line)
   while (line->p < line->end) {
     orc_line_skip_blanks (line);
     if (!orc_line_has_data (line) || orc_line_is_comment (line)) {
+      break;
+    }
+    if (line->n_tokens == ORC_LINE_MAX_TOKENS) {
+      /* no directive or opcode takes this many: flag the line as
+       * over-long, the caller reports it */
+      line->n_tokens = ORC_LINE_MAX_TOKENS + 1;
       break;
     }
     orc_line_add_token (line);
